@@ -368,15 +368,17 @@ Record cprogram : Type := {
   c_funcs : list cfunc
 }.
 
+(* compiler.go Compile: an action body / END block that compiles to no code ('{}', '{ { } }')
+   gets a Nop, so that the interpreter does not take it for "no action" / "no END" *)
+Definition nop_if_empty (c : code) : code := match c with [] => [INop] | _ => c end.
+
 Definition comp_action_body (b : option stmts) : option code :=
   match b with
   | None => None
-  | Some Snil => Some [INop]
-  | Some ss => Some (comp_block ss)
+  | Some ss => Some (nop_if_empty (comp_block ss))
   end.
 
-Definition comp_end_block (ss : stmts) : code :=
-  match ss with Snil => [INop] | _ => comp_block ss end.
+Definition comp_end_block (ss : stmts) : code := nop_if_empty (comp_block ss).
 
 Definition comp_program (p : program) : cprogram :=
   {| c_begin := flat_map comp_block (p_begin p);
